@@ -449,11 +449,24 @@ def loop_control_choice(sl):
         observe("time periods given => time-based loop", isinstance(lc, driver.TimePeriodBased))
         observe("warm-up time period as specified (default 0)", lc._warmup_time_period == (vals["warmup_time_period"] if has["warmup_time_period"] else 0))
         observe("time period as specified", (lc._time_period == vals["time_period"]) if has["time_period"] else lc._time_period is None)
+        # behaviour, not attributes: a task with a time period ends (with or without a warm-up period in the spec)
+        observe("a time period was given <=> the loop ends on its own", bool(lc.infinite) == (not has["time_period"]))
+        if has["time_period"]:
+            clk = [fresh_real("t_start")]
+            with shadowed(driver, (), extra={"time": type("T", (), {"perf_counter": staticmethod(lambda: clk[0])})}):
+                lc.start()
+                total = (vals["warmup_time_period"] if has["warmup_time_period"] else 0) + vals["time_period"]
+                el = fresh_real("elapsed", 0)
+                clk[0] = clk[0] + el
+                lc.next()
+                done = lc.completed
+                observe("the loop is completed exactly when warm-up + time period have elapsed", bool(done) == bool(el >= total))
     elif has["warmup_iterations"] or has["iterations"]:
         observe("iterations given => iteration-based loop", isinstance(lc, driver.IterationBased))
         observe("warm-up iterations as specified (default 0)", lc._warmup_iterations == (vals["warmup_iterations"] if has["warmup_iterations"] else 0))
         if has["iterations"]:
             observe("iterations as specified", lc._iterations == vals["iterations"])
+            observe("iterations were given => the loop ends on its own", not lc.infinite)
         elif infinite:
             observe("no iterations, infinite source => exactly one iteration", lc._iterations == 1)
         else:
